@@ -411,10 +411,9 @@ gj0ExportClassCreateAll()
 	AIntList exportedMethods = listNil(AInt);
 	AIntList list;
 	JavaCodeList allClasses = listNil(JavaCode);
+	JavaCodeList classNames = listNil(JavaCode), cl;
 	int i;
-	Table tbl;
 
-	tbl = tblNew((TblHashFun) jcoHash, (TblEqFun) jcoEqual);
 	for (i=0; i<foamDDeclArgc(globals); i++) {
 		Foam decl = globals->foamDDecl.argv[i];
 		if (foamGDeclIsExportOf(FOAM_Proto_Java, decl)
@@ -424,25 +423,33 @@ gj0ExportClassCreateAll()
 		}
 	}
 
-	list = exportedMethods;
-	while (list != listNil(AInt)) {
-		JavaCode class;
-		AInt id = car(list);
-		Foam decl = globals->foamDDecl.argv[id];
-		list = cdr(list);
-		class = gj0ExportClassName(decl->foamGDecl.id);
-		tblSetElt(tbl, class, listCons(AInt)(id,
-						     tblElt(tbl, class, listNil(AInt))));
+	/* The distinct classes, in the order in which they are first met (a
+	 * hash table would hand them out in an order that depends on where
+	 * its keys happen to lie in memory). */
+	for (list = exportedMethods; list != listNil(AInt); list = cdr(list)) {
+		Foam decl = globals->foamDDecl.argv[car(list)];
+		JavaCode class = gj0ExportClassName(decl->foamGDecl.id);
+		for (cl = classNames; cl != listNil(JavaCode); cl = cdr(cl))
+			if (jcoEqual(car(cl), class)) break;
+		if (cl == listNil(JavaCode))
+			classNames = listCons(JavaCode)(class, classNames);
 	}
+	classNames = listNReverse(JavaCode)(classNames);
 
-	TableIterator it;
-	for (tblITER(it, tbl); tblMORE(it); tblSTEP(it)) {
-		JavaCode className = tblKEY(it);
-		AIntList ids = tblELT(it);
+	for (cl = classNames; cl != listNil(JavaCode); cl = cdr(cl)) {
+		JavaCode className = car(cl);
+		AIntList ids = listNil(AInt);
+		JavaCode clss;
 
-		JavaCode clss = gj0ExportClassCreate(className, ids);
+		for (list = exportedMethods; list != listNil(AInt); list = cdr(list)) {
+			Foam decl = globals->foamDDecl.argv[car(list)];
+			if (jcoEqual(gj0ExportClassName(decl->foamGDecl.id), className))
+				ids = listCons(AInt)(car(list), ids);
+		}
+		clss = gj0ExportClassCreate(className, ids);
 		allClasses = listCons(JavaCode)(clss, allClasses);
 	}
+	listFree(JavaCode)(classNames);
 
 	return allClasses;
 }
@@ -1110,35 +1117,49 @@ gj0ProgEnvArg(Foam foam)
 local JavaCodeList
 gj0ProgDeclarations(Foam ddecl, Foam body)
 {
-	Table tbl = tblNew((TblHashFun) jcoHash, (TblEqFun) jcoEqual);
-	TableIterator it;
-	JavaCodeList decls;
+	JavaCodeList decls, types, tl;
+	JavaCode *typev;
 	IntSet initted;
-	int i=0;
-	initted = intSetNew(foamDDeclArgc(ddecl));
+	int i, n = foamDDeclArgc(ddecl);
+	initted = intSetNew(n);
 	
 
 	gj0ProgInitVars(initted, body);
 	gjDEBUG(dbOut, "InitVars: %s\n", intSetToString(initted));
 
-	foamIter(ddecl, pdecl, {
-			JavaCode type = gj0Type(*pdecl);
-			JavaCodeList l = (JavaCodeList) tblElt(tbl, type, 
-							       listNil(JavaCode));
-			l = listCons(JavaCode)(gj0ProgDecl(ddecl, i, 
-							   intSetMember(initted, i)),
-					       l);
-			tblSetElt(tbl, type, l);
-			i++;
-		});
-	
+	/* The type of each variable, and the distinct types in the order of
+	 * their first use.  (A hash table would hand the types out in an order
+	 * that depends on where its keys happen to lie in memory.) */
+	typev = (JavaCode *) stoAlloc(OB_Other, (n + 1) * sizeof(JavaCode));
+	types = listNil(JavaCode);
+	for (i = 0; i < n; i++) {
+		typev[i] = gj0Type(ddecl->foamDDecl.argv[i]);
+		for (tl = types; tl != listNil(JavaCode); tl = cdr(tl))
+			if (car(tl) == typev[i] || jcoEqual(car(tl), typev[i])) break;
+		if (tl == listNil(JavaCode))
+			types = listCons(JavaCode)(typev[i], types);
+	}
+	types = listNReverse(JavaCode)(types);
+
+	/* One declaration per type, its variables in index order. */
 	decls = listNil(JavaCode);
-	for (tblITER(it, tbl); tblMORE(it); tblSTEP(it)) {
-		JavaCode type = tblKEY(it);
-		JavaCodeList vars = listNReverse(JavaCode)(tblELT(it));
-		JavaCode decl = jcLocalDecl(0, type, jcCommaSeq(vars));
+	for (tl = types; tl != listNil(JavaCode); tl = cdr(tl)) {
+		JavaCode type = car(tl);
+		JavaCodeList vars = listNil(JavaCode);
+		JavaCode decl;
+
+		for (i = 0; i < n; i++)
+			if (typev[i] == type || jcoEqual(typev[i], type))
+				vars = listCons(JavaCode)(
+					gj0ProgDecl(ddecl, i,
+						    intSetMember(initted, i)),
+					vars);
+		vars = listNReverse(JavaCode)(vars);
+		decl = jcLocalDecl(0, type, jcCommaSeq(vars));
 		decls = listCons(JavaCode)(jcStatement(decl), decls);
 	}
+	listFree(JavaCode)(types);
+	stoFree((Pointer) typev);
 
 	return decls;
 }
